@@ -7,8 +7,10 @@ import Bng.Model.BindSpec
   Bng.BindSpec (C02) on the implementation's replies.
 
     new <net>/<plen> <gateway> <leaseSeconds> [<m1:ip,…|->]    5th token = Nexus/HTTP-allocator mode + its table
-    gap <disc|req|rel|dec …>     one cleanup pass with the message handled between its scan and its removal
+    gap <disc|discr|req|rel|dec …>     one cleanup pass with the message handled between its scan and its removal
     disc m<k> <giaddr|-> <c<n>|-|e|r|x>      (e: empty circuit-id, r: remote-id only, x: truncated TLV)
+    discr m<k> <requested|-> <giaddr|-> <c<n>|-|e|r|x>   DISCOVER carrying option 50 (`Msg.requested`; handleDiscover
+                                             never reads it — Spec.C02.v4_discover_ignores_requested)
     req  m<k> <requested|-> <ciaddr|-> <giaddr|-> <c<n>|->
     rel  m<k>
     dec  m<k> <requested|->
@@ -58,11 +60,14 @@ def parseLine (toks : List String) : Option Line :=
   match toks with
   | "gap" :: rest =>
     (match rest with
-      | "disc" :: _ | "req" :: _ | "rel" :: _ | "dec" :: _ => (parseLine rest).map .gap
+      | "disc" :: _ | "discr" :: _ | "req" :: _ | "rel" :: _ | "dec" :: _ => (parseLine rest).map .gap
       | _ => none)
   | ["disc", m, gi, cid] => do
       let m ← parseTagged 'm' m; let gi ← parseAddr gi; let cid ← parseCid cid
       pure (.disc { mac := m, giaddr := gi.getD 0, cid := cid.1, o82empty := cid.2 })
+  | ["discr", m, r, gi, cid] => do
+      let m ← parseTagged 'm' m; let r ← parseAddr r; let gi ← parseAddr gi; let cid ← parseCid cid
+      pure (.disc { mac := m, requested := r, giaddr := gi.getD 0, cid := cid.1, o82empty := cid.2 })
   | ["req", m, r, ci, gi, cid] => do
       let m ← parseTagged 'm' m; let r ← parseAddr r; let ci ← parseAddr ci
       let gi ← parseAddr gi; let cid ← parseCid cid
